@@ -107,17 +107,17 @@ NOFAC = dict(facilities=False, components=False)
 FULL = dict()
 
 PLANS = {
-    "C01": dict(cases=step_cases(["deps", "abs", "deps2"], NOFAC),
+    "C01": dict(cases=step_cases(["deps", "abs", "deps2", "edge"], NOFAC),
                 l1=l1(dict(family="rand", rand=NOFAC, invariants=['Inv_C01'], properties=['Prop_C01'], tier=1),
                       dict(family="deps", invariants=["Inv_C01"], properties=["Prop_C01"]),
                       dict(family="abs", invariants=["Inv_C01"], properties=["Prop_C01"]),
                       dict(family="deps2", invariants=["Inv_C01"], properties=["Prop_C01"]))),
-    "C02": dict(cases=both(unit2_cases(), step_cases(["deps", "alloc", "abs", "pairs"], FULL)),
+    "C02": dict(cases=both(unit2_cases(), step_cases(["deps", "alloc", "abs", "pairs", "edge"], FULL)),
                 l1=l1(dict(family="pairs", invariants=["Inv_C02"], properties=["Prop_C02"]),
                       dict(family="rand", rand=FLAT, invariants=['Inv_C02'], properties=['Prop_C02'], tier=1),
                       dict(family="deps", invariants=["Inv_C02"], properties=["Prop_C02"]),
                       dict(family="alloc", invariants=["Inv_C02"], properties=["Prop_C02"]))),
-    "C03": dict(cases=both(unit2_cases(), step_cases(["alloc", "place", "conveyor", "pairs"], FULL)),
+    "C03": dict(cases=both(unit2_cases(), step_cases(["alloc", "place", "conveyor", "pairs", "edge"], FULL)),
                 l1=l1(dict(family="pairs", invariants=["Inv_C03"], properties=["Prop_C03"]),
                       dict(family="rand", rand=FLAT, invariants=['Inv_C03'], properties=['Prop_C03'], tier=1),
                       dict(family="alloc", invariants=["Inv_C03"], properties=["Prop_C03"]),
@@ -127,23 +127,23 @@ PLANS = {
                       dict(family="rand", rand=FLAT, invariants=['Inv_C04'], properties=['Prop_C04'], tier=1),
                       dict(family="alloc", invariants=["Inv_C04"], properties=["Prop_C04"]),
                       dict(family="place", invariants=["Inv_C04"], properties=["Prop_C04"]))),
-    "C05": dict(cases=both(step_cases(["deps", "abs", "place"], FULL),
+    "C05": dict(cases=both(step_cases(["deps", "abs", "place", "edge"], FULL),
                            lambda tier, seed: _sim(families.sample(families.export_family("deps4", 1), 300 if tier == "quick" else 5000, seed))),
                 l1=l1(dict(family="deps", invariants=["Inv_C05"], properties=["Live_C05"]),
                       dict(family="abs", invariants=["Inv_C05"]))),
-    "C06": dict(cases=step_cases(["deps", "alloc", "pairs", "deps2"], FULL),
+    "C06": dict(cases=step_cases(["deps", "alloc", "pairs", "deps2", "edge"], FULL),
                 l1=l1(dict(family="rand", rand=FLAT, invariants=['Inv_C06'], properties=['Prop_C06'], tier=1),
                       dict(family="deps", invariants=["Inv_C06"], properties=["Prop_C06"]),
                       dict(family="alloc", invariants=["Inv_C06"], properties=["Prop_C06"]))),
-    "C07": dict(cases=both(unit2_cases(), step_cases(["alloc", "abs"], FULL)),
+    "C07": dict(cases=both(unit2_cases(), step_cases(["alloc", "abs", "edge"], FULL)),
                 l1=l1(dict(family="rand", rand=FLAT, invariants=['Inv_C07'], properties=[], tier=1),
                       dict(family="alloc", invariants=["Inv_C07"]),
                       dict(family="abs", invariants=["Inv_C07"]))),
-    "C08": dict(cases=step_cases(["deps", "place", "dag", "watch"], FULL),
+    "C08": dict(cases=step_cases(["deps", "place", "dag", "watch", "edge"], FULL),
                 l1=l1(dict(family="abs", invariants=["Inv_C08"]))),
     "C10": dict(cases=step_cases(["abs", "pairs"], FULL),
                 l1=l1(dict(family="abs", invariants=["Inv_C10", "Inv_C10H"], properties=["Prop_C10"]))),
-    "C11": dict(cases=both(sort_cases(), step_cases(["alloc"], FULL, nq=400, rq=300)),
+    "C11": dict(cases=both(sort_cases(), step_cases(["alloc", "edge"], FULL, nq=400, rq=300)),
                 l1=l1(dict(family="alloc", properties=["Prop_C11"]))),
     "C12": dict(cases=step_cases(["pert"], dict(facilities=False, components=False, kinds=["FS"])),
                 l1=l1(dict(family="pert", invariants=["Inv_C12"]))),
@@ -742,4 +742,7 @@ _more_l1("C15", dict(family="alloc", invariants=["Inv_C15"], tier=1), dict(famil
          dict(family="placeflat", invariants=["Inv_C15"]), dict(family="conveyor", invariants=["Inv_C15"]),
          dict(family="pairs", invariants=["Inv_C15"], quick=True))
 _more_l1("C17", dict(family="deps2", invariants=["Inv_C17"]), dict(family="abs", invariants=["Inv_C17"]))
-
+for _p, _inv, _prop in [("C01", ["Inv_C01"], ["Prop_C01"]), ("C02", ["Inv_C02"], ["Prop_C02"]), ("C03", ["Inv_C03"], ["Prop_C03"]),
+                        ("C05", ["Inv_C05"], ["Live_C05"]), ("C06", ["Inv_C06"], ["Prop_C06"]), ("C07", ["Inv_C07"], []),
+                        ("C08", ["Inv_C08", "RunAgrees"], []), ("C11", [], ["Prop_C11"])]:
+    _more_l1(_p, dict(family="edge", invariants=_inv, properties=_prop, quick=True, tier=1))
